@@ -97,7 +97,8 @@ class ScriptPeer(transports.Peer):
             elif part == 'other_tid':
                 fr = (uid, ((tid or 0) + 5) & 0xFFFF, transports.reply_pdu(rpdu, self.seq + 1000))
             elif part == 'other_unit':
-                fr = ((uid % 247) + 1, tid, transports.reply_pdu(rpdu, self.seq + 2000))
+                other = [0, (uid % 247) + 1, 255, uid - 1 if uid > 1 else 2][(self.seq + len(self.placed)) % 4]
+                fr = (other, tid, transports.reply_pdu(rpdu, self.seq + 2000))
             elif part == 'other_fc':
                 ofc = 4 if rpdu[0] != 4 else 3
                 fr = (uid, tid, specpdu.encode('rsp:%d' % ofc, {'registers': [self.seq, 0xABCD]}))
